@@ -135,7 +135,7 @@ ROOT_ITEM = dict(library_lights='lights', library_cameras='cameras', library_ima
                  library_geometries='geometries', library_nodes='nodes', library_visual_scenes='scenes')
 
 
-def root_case(rng):
+def root_case(rng, after_load=None, want_doc=False):
     """a document whose root has the given children — several library elements of one kind, libraries without objects, unmanaged
     libraries, extras, with or without <scene> — through one Collada.save(): (request line, children written, children after a second save)"""
     import collada
@@ -182,6 +182,10 @@ def root_case(rng):
     doc = collada.Collada(io.BytesIO(data))
     if scene_id and scene_id.endswith('!'):
         doc.scene = doc.scenes[scene_id[:-1]]
+    if after_load is not None:
+        after_load(doc)
+    if want_doc:
+        return doc, kids
     full = [k for k in ROOT_MANAGED if len(getattr(doc, ROOT_ITEM.get(k, 'controllers')))]
     line = 'root %d ; %s ; %s' % (1 if doc.scene is not None else 0, ' '.join(full), ' '.join(kids))
     doc.save()
